@@ -1,6 +1,7 @@
 package chw
 
 import (
+	"bufio"
 	"bytes"
 	"encoding/json"
 	"fmt"
@@ -74,7 +75,12 @@ func (s *Session) Send(client int, rq *gen.Request) *ReqRecord {
 	rec.SendT = Tick()
 	cl := *s.HTTP
 	cl.Timeout = s.Timeout
-	resp, err := cl.Do(hr)
+	var resp *http.Response
+	if rq.HalfClose && rq.SlowUploadMs == 0 {
+		resp, err = halfCloseDo(hr, s.Timeout)
+	} else {
+		resp, err = cl.Do(hr)
+	}
 	if err != nil {
 		rec.Err = err.Error()
 		rec.AnsT = Tick()
@@ -90,6 +96,40 @@ func (s *Session) Send(client int, rq *gen.Request) *ReqRecord {
 	rec.Wall = time.Since(start)
 	return rec
 }
+
+// halfCloseDo sends the request over a connection of its own, shuts the sending side and then reads the answer.
+func halfCloseDo(hr *http.Request, timeout time.Duration) (*http.Response, error) {
+	conn, err := net.DialTimeout("tcp", hr.URL.Host, 10*time.Second)
+	if err != nil {
+		return nil, err
+	}
+	if timeout <= 0 {
+		timeout = 45 * time.Second
+	}
+	conn.SetDeadline(time.Now().Add(timeout))
+	hr.Close = true
+	if err := hr.Write(conn); err != nil {
+		conn.Close()
+		return nil, err
+	}
+	if tc, ok := conn.(*net.TCPConn); ok {
+		tc.CloseWrite()
+	}
+	resp, err := http.ReadResponse(bufio.NewReader(conn), hr)
+	if err != nil {
+		conn.Close()
+		return nil, err
+	}
+	resp.Body = &connBody{resp.Body, conn}
+	return resp, nil
+}
+
+type connBody struct {
+	io.ReadCloser
+	c net.Conn
+}
+
+func (b *connBody) Close() error { b.ReadCloser.Close(); return b.c.Close() }
 
 // slowReader hands the body out in 512 KiB pieces with a pause after each.
 type slowReader struct {
